@@ -44,6 +44,11 @@ Oracle.
   the designed byte length L = sum(lens) + 23 (all of 95..215 in the thorough tier; quick: every 6th plus the hash block/padding
   boundaries 111..113, 119..121, 127..129, 143..145, 159..161, 191..193 and the extremes) - lengths a real source meets once in
   tens of thousands of candidates. mnemonic-derive also takes fixed words of designed phrase length 127/128/129 (thorough: more).
+* several threads (core.hammer; oracle = what each call gives alone, plus the independent rules above inside the thunks):
+  `two-threads-mnemonics` - mnemonic_new / mnemonic_is_valid / mnemonic_to_wallet_key called by 2-4 threads at once (every generated
+  mnemonic valid by the library and by the documented rule, every derived key the documented one), after a one-thread history
+  (draw, draw, edit the second list, draw: the first list unchanged, the third valid);
+  `two-threads-crypto-hammer` - sign / verify / channel construction / encrypt / decrypt in tight loops by 4 threads.
 
 Deliberately NOT asserted (not in the statement):
 * which of the two directions uses the reversed secret, the value of the shared secret, the AES key/iv slicing,
@@ -68,7 +73,8 @@ RULE = ('channel case = (seed a, seed b, id mode chan|lt|raw with its seeds/ids,
         'every non-large channel case also sends plaintexts made of the channel\'s own values (emitted packets nested up to 3 deep, '
         'packet prefixes, checksum field, ciphertext, key ids, peer ids; all kinds in grid cases, 3 drawn kinds in random cases). '
         'mnemonic cases = index of a fresh mnemonic_new() draw, a draw from a supplied random stream (with edge words, a stuck '
-        'source, or steered so that every candidate phrase has a designed byte length 95..215), or 24 fixed words. '
+        'source, or steered so that every candidate phrase has a designed byte length 95..215), or 24 fixed words; the generator, the validity test '
+        'and the derivation are also called by 2-4 threads at the same time, and signing / verifying / channel calls by 4 threads in tight loops. '
         'non-trivial = channel case whose A-side id is greater than or equal to the B-side id (descending or equal), or a '
         'signature case (each one is a tampered-signature case); mnemonic cases are not counted as non-trivial '
         '(the rule given for this property does not name them). distinct = distinct case')
@@ -777,3 +783,132 @@ SUBCHECKS = [
 # kept in a place two calls share shows only there
 SUBCHECKS.append(__import__('harness.core', fromlist=['overlapped']).overlapped(next(s for s in SUBCHECKS if s.name == 'channel-random'), k=3, n=(30, 600), name='two-threads-channel'))
 SUBCHECKS.append(__import__('harness.core', fromlist=['overlapped']).overlapped(next(s for s in SUBCHECKS if s.name == 'sign-random'), k=3, n=(40, 1000), name='two-threads-sign'))
+
+
+# --------------------------------------------------------------------------------------------------
+# narrow windows: nothing but library calls, made by several threads in tight loops (core.hammer). Per-call scratch state kept at
+# module or class level (a candidate buffer that is cleared at the start of every attempt, a reused cipher / hash object) is correct
+# in every single-threaded history and shows only when two calls are inside the function at the same time.
+
+def _mnemonic_verdict(keys, w):
+    """'valid' or a description (with the words, so that the detail of a failure replays as a {'words': [...]} case)"""
+    if not isinstance(w, (list, tuple)) or not all(isinstance(x, str) for x in w):
+        return f'not a list of words: {w!r}'[:300]
+    w = list(w)
+    ok, v = call(keys.mnemonic_is_valid, list(w))
+    if not ok or not v:
+        return f'rejected by mnemonic_is_valid ({len(w)} words): ' + ' '.join(w)
+    if not refkeys.mnemonic_valid(w):
+        return f'invalid by the documented rule ({len(w)} words): ' + ' '.join(w)
+    return 'valid'
+
+
+def check_mnemonic_threads(case):
+    from harness.core import hammer
+    from pytoniq_core.crypto import keys
+    # history first, one thread: a mnemonic handed out stays what it was when the next one is generated (the caller owns the list),
+    # and the caller's editing of a returned list does not reach the next draw
+    ok, m1 = call(keys.mnemonic_new)
+    if not ok or _mnemonic_verdict(keys, m1) != 'valid':
+        return None                                   # fails without any history: reported by mnemonic-new-valid
+    snap = list(m1)
+    ok, m2 = call(keys.mnemonic_new)
+    if not ok:
+        return None
+    if list(m1) != snap:
+        return Fail('mnemonic_new/earlier-result-changed-by-a-later-call', f'first: {" ".join(snap)}; after a second mnemonic_new() the first list reads {" ".join(map(str, m1))}')
+    if m2 is m1:
+        return Fail('mnemonic_new/earlier-result-changed-by-a-later-call', 'the second call returned the list object of the first')
+    try:
+        m2.clear() if case['edit'] == 'clear' else m2.reverse() if case['edit'] == 'reverse' else m2.append('abandon')
+    except Exception:
+        pass
+    ok, m3 = call(keys.mnemonic_new)
+    if ok and (v := _mnemonic_verdict(keys, m3)) != 'valid':
+        return Fail('mnemonic/generated-mnemonic-invalid-after-the-caller-edited-an-earlier-result', f'edit={case["edit"]}: {v}')
+    fixed, fixed2 = tuple(snap), tuple(m3) if ok else tuple(snap[::-1])
+    exp = {w: refkeys.wallet_key(list(w)) for w in (fixed, fixed2)}
+
+    def derive(w):
+        k = keys.mnemonic_to_wallet_key(list(w))
+        got = (bytes(k[0]), bytes(k[1]))
+        return 'documented key' if got == exp[w] else f'other key {got[0].hex()} for: {" ".join(w)}'
+    table = {
+        'new': ('mnemonic_new-then-validity', lambda: _mnemonic_verdict(keys, keys.mnemonic_new())),
+        'valid': ('mnemonic_is_valid', lambda: bool(keys.mnemonic_is_valid(list(fixed))) and bool(keys.mnemonic_is_valid(list(fixed2)))),
+        'derive': ('mnemonic_to_wallet_key', lambda: derive(fixed)),
+        'derive2': ('mnemonic_to_wallet_key', lambda: derive(fixed2)),
+    }
+    calls = [table[k] for k in case['mix']]
+    return hammer(calls, threads=case['threads'], rounds=case['rounds'], same=lambda a, b: a == b)
+
+
+def enum_mnemonic_threads(tier):
+    mixes = [(['new'], 2, 3), (['new'], 4, 2), (['new', 'valid'], 3, 2), (['new', 'derive'], 2, 2), (['new', 'new', 'valid', 'derive2'], 4, 1),
+             (['derive', 'derive2', 'valid'], 3, 1), (['new'], 3, 2), (['new', 'valid', 'new'], 2, 1)]
+    for i in range(6 if tier == 'quick' else len(mixes) * 6):
+        mix, threads, rounds = mixes[i % len(mixes)]
+        yield {'i': i, 'mix': mix, 'threads': threads, 'rounds': rounds, 'edit': ('clear', 'reverse', 'append')[i % 3]}
+
+
+def check_crypto_hammer(case):
+    """signing, verifying, encrypting and decrypting with a few fixed keys / channels, every call a function of its arguments alone
+    (Ed25519 signatures and the channel's AES-CTR keyed by the plaintext checksum are deterministic)"""
+    from harness.core import hammer
+    from pytoniq_core.crypto.signature import verify_sign, sign_message
+    from pytoniq_core.crypto.ciphers import Client, Server, AdnlChannel, get_signature
+    from nacl.signing import SigningKey
+    calls = []
+    for s in case['signers']:
+        seed, m = bytes.fromhex(s['seed']), bytes.fromhex(s['msg'])
+        pk, sk = refkeys.ed_keypair(seed)
+        ok, sig = call(sign_message, m, sk)
+        if not ok or not isinstance(sig, (bytes, bytearray)):
+            continue
+        sig = bytes(sig)
+        calls.append(('sign_message', lambda m=m, sk=sk: bytes(sign_message(m, sk))))
+        calls.append(('get_signature', lambda m=m, seed=seed: bytes(get_signature(SigningKey(seed), m))))
+        calls.append(('Client.sign', lambda m=m, seed=seed: bytes(Client(seed).sign(m))))
+        calls.append(('verify_sign/valid', lambda pk=pk, m=m, sig=sig: bool(verify_sign(pk, m, sig))))
+        calls.append(('verify_sign/other-message', lambda pk=pk, m=m, sig=sig: bool(verify_sign(pk, m + b'\x00', sig))))
+    for c in case['channels']:
+        a, b = bytes.fromhex(c['a']), bytes.fromhex(c['b'])
+        p = bytes.fromhex(c['p'])
+        pub_a, pub_b = refkeys.ed_keypair(a)[0], refkeys.ed_keypair(b)[0]
+
+        def build(a=a, b=b, pub_a=pub_a, pub_b=pub_b):
+            ca, sb = Client(a), Server('10.0.0.2', 2, pub_b)
+            cb, sa = Client(b), Server('10.0.0.1', 1, pub_a)
+            return (AdnlChannel(ca, sb, ca.get_key_id(), sb.get_key_id()), AdnlChannel(cb, sa, cb.get_key_id(), sa.get_key_id()))
+        ok, chans = call(build)
+        if not ok:
+            continue
+        cha, chb = chans
+        ok, pkt = call(cha.encrypt, p)
+        if not ok or not isinstance(pkt, (bytes, bytearray)) or len(pkt) < 64:
+            continue
+        pkt = bytes(pkt)
+        calls.append(('AdnlChannel.encrypt', lambda cha=cha, p=p: bytes(cha.encrypt(p))))
+        calls.append(('AdnlChannel.decrypt', lambda chb=chb, pkt=pkt: bytes(chb.decrypt(pkt[64:], pkt[32:64]))))
+        calls.append(('AdnlChannel.encrypt', lambda chb=chb, p=p: bytes(chb.encrypt(p[::-1]))))
+        calls.append(('AdnlChannel()', lambda build=build, p=p: bytes(build()[0].encrypt(p))))
+    if len(calls) < 2:
+        return None
+    return hammer(calls, threads=4, rounds=case.get('rounds', 5))
+
+
+def strat_crypto_hammer(tier):
+    signer = st.builds(lambda s, m: {'seed': s.hex(), 'msg': m.hex()}, _seed, _msg)
+    chan = st.builds(lambda sp, p: {'a': sp[0].hex(), 'b': sp[1].hex(), 'p': p.hex()}, _seed_pair, _plain)
+    return st.builds(lambda ss, cs: {'signers': ss, 'channels': cs}, st.lists(signer, min_size=1, max_size=2), st.lists(chan, min_size=1, max_size=2))
+
+
+SUBCHECKS.append(Sub('two-threads-mnemonics', check_mnemonic_threads, enum=enum_mnemonic_threads, nontrivial=lambda c: False, shards=(6, 16),
+                     case_cpu_s=240.0, classify=lambda c: ['calls=' + '+'.join(c['mix']), 'threads=%d' % c['threads']],
+                     note='mnemonic_new (validity of every result by the library and by the documented rule) / mnemonic_is_valid / '
+                          'mnemonic_to_wallet_key (against the documented derivation) called by 2-4 threads at the same time (core.hammer), after a '
+                          'one-thread history: draw, draw again, edit the second list, draw - earlier results unchanged, later ones valid'))
+SUBCHECKS.append(Sub('two-threads-crypto-hammer', check_crypto_hammer, strategy=strat_crypto_hammer, nontrivial=lambda c: True, n=(10, 1500), shards=(2, 16),
+                     case_cpu_s=120.0, classify=lambda c: ['signers=%d' % len(c['signers']), 'channels=%d' % len(c['channels'])],
+                     note='sign_message / get_signature / Client.sign / verify_sign / AdnlChannel construction, encrypt, decrypt on 1-2 keys and 1-2 '
+                          'channel pairs by 4 threads in tight loops; oracle = what each call returns alone'))
